@@ -47,7 +47,6 @@ func enumText(e *env) {
 	xs := stringsOver(xmlRuneAlphabet, 3)
 	e.r.Extra("xmlentities_inputs", len(xs))
 	e.each(strItems(xs), 256, func(items []any) { checkText(e, "xmlent", items) })
-	e.r.Sample(map[string]any{"section": "text", "input": ss[len(ss)/2], "functions": "to/from_urlencode to/from_urlpath to/from_{iso8859_1,utf8,utf16,utf16le,utf16be}"})
 }
 
 // refEscapeAll: every byte outside the unreserved set as %XX.
@@ -333,7 +332,6 @@ func enumURLQuery(e *env) {
 	}
 	st.flush()
 	e.r.Extra("urlquery_inputs", n)
-	e.r.Sample(map[string]any{"section": "urlquery", "input": map[string]any{"é": []any{"a", "&"}}, "functions": "to_urlquery from_urlquery"})
 }
 
 func checkURLQuery(e *env, fn string, items []any) {
@@ -547,7 +545,6 @@ func enumURL(e *env) {
 	}
 	e.r.Extra("url_inputs", len(items))
 	e.each(items, 256, func(items []any) { checkURL(e, "url", items) })
-	e.r.Sample(map[string]any{"section": "url", "input": items[len(items)-7], "functions": "to_url from_url"})
 }
 
 func checkURL(e *env, fn string, items []any) {
